@@ -13,6 +13,7 @@ mod c19;
 mod c20;
 mod coqfmt;
 mod model;
+mod rvb;
 mod ising;
 mod steps;
 mod tape;
@@ -109,6 +110,7 @@ fn main() {
         "c18" => c18::run(&args),
         "c20" => c20::run(&args),
         "thermal" => thermal::run(&args),
+        "rvb" => rvb::run(&args),
         other => {
             eprintln!("unknown command {}", other);
             std::process::exit(2);
